@@ -63,14 +63,18 @@ def _check_case(repo, case: S.SimCase, rank):
         fills = [ev for ev in out.events if ev[0] == "fill"]
         names = [f[1] for f in fills]
         # reaction order
+        rnames = []
+        if case.reaction is not None:
+            rnames = list(case.reaction[1]) if isinstance(case.reaction[1], (list, tuple)) else [case.reaction[1]]
         if case.reaction is not None and len(names) > case.reaction[0]:
             trig = names[case.reaction[0]]
-            if trig in pos or trig == "REACT":
+            if trig in pos:
                 t0 = pos.get(trig)
                 if t0 is not None:
-                    rp = S.first_position(segs, s[case.reaction[1]], start=t0)
-                    if rp is not None:
-                        pos["REACT"] = rp
+                    for j, rn in enumerate(rnames):
+                        rp = S.first_position(segs, s[rn], start=t0)
+                        if rp is not None:
+                            pos["REACT" if j == 0 else f"REACT{j + 1}"] = rp
         exp_names = set(pos)
         got = [n for n in names]
         if len(set(got)) != len(got):
@@ -81,8 +85,9 @@ def _check_case(repo, case: S.SimCase, rank):
             trig = names[case.reaction[0]]
             if trig.startswith("O"):
                 tp = s[case.order_prices[int(trig[1:])]]
-                if s[case.reaction[1]] == tp:
-                    optional.add("REACT")
+                for j, rn in enumerate(rnames):
+                    if s[rn] == tp:
+                        optional.add("REACT" if j == 0 else f"REACT{j + 1}")
         missing = exp_names - set(got) - optional
         extra = set(got) - exp_names - optional
         if missing:
@@ -153,8 +158,13 @@ def _cases(tier):
     ks = [1, 2] if tier == "quick" else [1, 2, 3]
     for k in ks:
         cases.append(S.SimCase([f"p{i}" for i in range(k)]))
+    if tier == "quick":
+        # three resting orders at distinct prices (symmetry broken: p0 < p1 < p2); ties are covered by the thorough tier
+        cases.append(S.SimCase(["p0", "p1", "p2"], extra_cons=[("p0", "<", "p1"), ("p1", "<", "p2")]))
     # reaction orders: triggered by first fill
     cases.append(S.SimCase(["p0"], reaction=(0, "r")))
+    # two exits placed from the fill hook (stop-loss + take-profit): re-sorting must use the REMAINING candle
+    cases.append(S.SimCase(["p0"], reaction=(0, ["r", "r2"]), extra_cons=[("r", "<", "r2")]))
     if tier != "quick":
         cases.append(S.SimCase(["p0", "p1"], reaction=(0, "r")))
         cases.append(S.SimCase(["p0", "p1"], reaction=(1, "r")))
@@ -182,9 +192,12 @@ def run_all(repo: Repo, tier: str):
     """Yield (ordering description, [(rule, key, message)], sample) for every case x weak ordering."""
     jobs = []
     for case in _cases(tier):
-        syms = ["o", "c", "h", "l"] + case.order_prices + ([case.reaction[1]] if case.reaction else [])
-        ranks = list(weak_orderings(syms, CANDLE_CONS))
-        spec = (case.order_prices, case.reaction, case.inactive)
+        rsyms = []
+        if case.reaction:
+            rsyms = list(case.reaction[1]) if isinstance(case.reaction[1], (list, tuple)) else [case.reaction[1]]
+        syms = ["o", "c", "h", "l"] + case.order_prices + rsyms
+        ranks = list(weak_orderings(syms, CANDLE_CONS + list(case.extra_cons)))
+        spec = (case.order_prices, case.reaction, case.inactive, case.extra_cons)
         chunk = max(1, len(ranks) // 64)
         for i in range(0, len(ranks), chunk):
             jobs.append((repo.root, spec, ranks[i:i + chunk]))
